@@ -1956,6 +1956,46 @@ class Translator:
     def ex_CXXNoexceptExpr(self, n, fctx):
         return '1' if n.get('value') in (True, 'true') else '0'
 
+    def _class_spec_pack_size(self, n, nm):
+        """sizeof...(Ts) inside a member of a class template specialization instantiated from a partial specialization
+        `template <typename...Ts> struct X<Y<Ts...>, fixed...>` (e.g. meta::len<std::tuple<Ts...>>::value): the pack size is the
+        number of top-level template arguments of the specialization's corresponding argument.  None if the pattern is not
+        exactly this (unique matching partial specialization whose only template parameter is the pack)."""
+        spec = self.ast.par(n)
+        while spec is not None and spec.get('kind') != 'ClassTemplateSpecializationDecl':
+            spec = self.ast.par(spec)
+        if spec is None: return None
+        tpl = self.ast.par(spec)
+        if tpl is None: return None
+        sargs = [c.get('type', {}).get('qualType') for c in spec.get('inner', []) or [] if c.get('kind') == 'TemplateArgument']
+        if not hasattr(self, '_partial_specs'):
+            # partial specializations may live in a different (reopened) namespace block than the primary template: index all of them once
+            self._partial_specs = {}
+            for d in self.ast.byid.values():
+                if d.get('kind') == 'ClassTemplatePartialSpecializationDecl':
+                    self._partial_specs.setdefault(self.ast.qualname(d), []).append(d)
+        found = []
+        for p in self._partial_specs.get(self.ast.qualname(tpl), []):
+            if p.get('kind') != 'ClassTemplatePartialSpecializationDecl' or p.get('name') != spec.get('name'): continue
+            tps = [c for c in p.get('inner', []) or [] if c.get('kind') in ('TemplateTypeParmDecl', 'NonTypeTemplateParmDecl', 'TemplateTemplateParmDecl')]
+            if len(tps) != 1 or tps[0].get('name') != nm or not tps[0].get('isParameterPack'): continue
+            pargs = [c.get('type', {}).get('qualType') for c in p.get('inner', []) or [] if c.get('kind') == 'TemplateArgument']
+            if len(pargs) != len(sargs) or None in pargs or None in sargs: continue
+            idx = [k for k, a in enumerate(pargs) if re.match(r'^(?:\w+::)*(\w+)<type-parameter-0-0\.\.\.>$', a)]
+            if len(idx) != 1: continue
+            k = idx[0]
+            if any(pargs[j] != sargs[j] for j in range(len(pargs)) if j != k): continue
+            head = re.match(r'^(?:\w+::)*(\w+)<', pargs[k]).group(1)
+            m = re.match(r'^(?:\w+::)*(\w+)<(.*)>$', sargs[k])
+            if not m or m.group(1) != head: continue
+            body = m.group(2).strip(); depth = 0; cnt = 0 if body == '' else 1
+            for ch in body:
+                if ch in '<([': depth += 1
+                elif ch in '>)]': depth -= 1
+                elif ch == ',' and depth == 0: cnt += 1
+            found.append(cnt)
+        return found[0] if len(found) == 1 else None
+
     def ex_SizeOfPackExpr(self, n, fctx):
         nm = n.get('name')
         cnt = 0
@@ -1978,6 +2018,9 @@ class Translator:
                             if ta.get('isPack') or all(c.get('kind') == 'TemplateArgument' for c in ta.get('inner', []) or [{}]):
                                 return self.lit(len(ta.get('inner', []) or []), self.ctype(n.get('type'), fctx, n))
                 cur = self.enclosing_fn(cur)
+            cnt2 = self._class_spec_pack_size(n, nm)
+            if cnt2 is not None:
+                return self.lit(cnt2, self.ctype(n.get('type'), fctx, n))
             fail('cannot determine size of pack %s' % nm, n)
         return self.lit(cnt, self.ctype(n.get('type'), fctx, n))
 
